@@ -10,7 +10,7 @@ PID = "C15"
 RULE = (
     "Hypothesis generates interleavings (shrunk as one value) of read-only operations (registry getters, "
     "ObtainQuantity, Scalar/Array construction, GetValidUnits on the database and on objects, CheckCategoryUnit, "
-    "Convert, arithmetic, IsValid, FindUnitCase, GetDefaultCategory), failing lookups (unknown unit, unit of another "
+    "Convert, arithmetic on simple and derived (power) quantities, IsValid, FindUnitCase, GetDefaultCategory), failing lookups (unknown unit, unit of another "
     "type, unknown category) and registrations (AddUnitBase, AddUnit, AddCategory new / overriding / with another "
     "quantity type / from_category) on a warm database - a small generated one, and the shipped POSC table plus "
     "generated registrations. Oracle (differential + invariant): the outcome of every operation (value repr or exception "
@@ -121,6 +121,14 @@ def query(db, q):
             r = repr(Scalar(1.0, q[2], q[1]) + Scalar(2.0, q[3]))
         elif k == "Multiply":
             r = repr(Scalar(2.0, q[2], q[1]) * Scalar(3.0, q[3]))
+        elif k == "AddPow":
+            r = repr(Scalar(1.0, q[2], q[1]) ** q[4] + Scalar(2.0, q[3]) ** q[4])
+        elif k == "MulPow":
+            r = repr(Scalar(2.0, q[2], q[1]) * Scalar(3.0, q[3]) ** q[4])
+        elif k == "DivPow":
+            r = repr(Scalar(2.0, q[2], q[1]) / Scalar(3.0, q[3]) ** q[4])
+        elif k == "ArrayMulPow":
+            r = repr(Array(numpy.array([2.0, 4.0]), q[2], q[1]) * (Array([3.0, 5.0], q[3]) * Array((1.0, 2.0), q[3])))
         elif k == "IsValid":
             r = (Scalar(q[3], q[2], q[1]).IsValid(), Array([q[3], 1.0], q[2], q[1]).IsValid())
         elif k == "CheckValueForCategory":
@@ -284,6 +292,7 @@ def seq_strategy(base_kind, max_len):
             st.tuples(st.sampled_from(["Convert", "ConvertList"]), st.one_of(t, c), u, u),
             st.tuples(st.sampled_from(["GetValue", "Add", "Multiply", "CreateCopy"]), c, u, u),
             st.tuples(st.sampled_from(["IsValid", "CheckValueForCategory"]), c, u, x),
+            st.tuples(st.sampled_from(["AddPow", "MulPow", "DivPow", "ArrayMulPow"]), c, u, u, st.sampled_from([2, 3, 2])),
             st.just(("GetQuantityTypes",)),
             st.just(("GetUnitsAll",)),
         ).map(list)
@@ -320,6 +329,10 @@ def seq_strategy(base_kind, max_len):
                     ]
                 )
             )
+            if draw(st.booleans()):
+                e1, e2 = draw(st.sampled_from([(2, 3), (3, 2), (2, 2)]))
+                k1, k2 = draw(st.sampled_from(["AddPow", "MulPow", "DivPow"])), draw(st.sampled_from(["AddPow", "MulPow", "DivPow"]))
+                ask += [["query", [k1, c0, "m", "km", e1]], ["query", [k2, c0, "m", "km", e2]], ["query", [k2, c0, "km", "m", e1]]]
             noise1 = draw(st.lists(op, max_size=3))
             noise2 = draw(st.lists(op, max_size=3))
             pre = [["reg", copy.deepcopy(r)] for r in prefix_pool]
